@@ -203,6 +203,7 @@ def oracle(case, obs):
     rowwise = None
     if daily is not None and "err" not in daily:
         rowwise = Fraction(0)
+        kept_obs = Fraction(0)      # usage on rows without prediction: what the known dropped-row findings explain
         finite_rows = True
         for t, o, p in zip(daily["ts"], daily["obs"], daily["pred"]):
             has_o, has_p = o != "nan", p != "nan"
@@ -214,6 +215,8 @@ def oracle(case, obs):
             if has_o and not has_p:
                 c = cause_of(by_ts[t]) if t in by_ts else "row not in the input"
                 causes.add(c)
+                if not isinstance(o, str):
+                    kept_obs += Fraction(o[0], o[1])
                 fails.append((dict(base, defect="observed kept on a row without prediction", cause=c, where="daily frame"),
                               "a day (%s) has an observed value and no prediction" % c,
                               {"ts": t, "observed": o, "predicted": p, "input_row": by_ts.get(t)}))
@@ -236,6 +239,12 @@ def oracle(case, obs):
                 continue
             sep = Fraction(*fr["sum_pred"]) - Fraction(*fr["sum_obs"])
             scale = max(1, abs(Fraction(*fr["sum_pred"])), abs(Fraction(*fr["sum_obs"])))
+            if causes and abs(sep - rowwise + kept_obs) > Fraction(1, 10**9) * scale:
+                # the difference is not the usage kept on the rows without prediction: something else is wrong
+                fails.append((dict(base, defect="column sums differ from row-wise savings", cause="none", where="sums agg=%s" % agg),
+                              "sum(predicted)-sum(observed) = %s, row-wise savings sum = %s, usage on rows without prediction = %s"
+                              % (float(sep), float(rowwise), float(kept_obs)),
+                              {"aggregation": agg, "separate": float(sep), "rowwise": float(rowwise), "kept_observed": float(kept_obs)}))
             if abs(sep - rowwise) > Fraction(1, 10**9) * scale:
                 for c in (sorted(causes) or ["none"]):
                     fails.append((dict(base, defect="observed kept on a row without prediction" if causes else "column sums differ from row-wise savings",
